@@ -15,6 +15,8 @@ func init() {
 	rt.Register("C12_parallel_out", VerifHarness_C12_parallel_out)
 	rt.Register("C12_partition_symbolic", VerifHarness_C12_partition_symbolic)
 	rt.Register("C12_coder_goroutines", VerifHarness_C12_coder_goroutines)
+	rt.Register("C12_parallel_twice", VerifHarness_C12_parallel_twice)
+	rt.Register("C07_reconstruct_twice", VerifHarness_C07_reconstruct_twice)
 	rt.Register("C07_cauchy_xy", VerifHarness_C07_cauchy_xy)
 	rt.Register("C07_generators", VerifHarness_C07_generators)
 	rt.Register("C07_vandermonde_elem", VerifHarness_C07_vandermonde_elem)
@@ -131,6 +133,47 @@ func VerifHarness_C12_parallel_data_long() {
 	length := 26 + 2*rt.Choice("words", 20) // 26..64 bytes: 2..4 workers of 16 or 32 bytes, clamped last chunk
 	g := 1 + rt.Choice("goroutines", 6)
 	parallelCase(length, g, false)
+}
+
+// Hidden state between calls: two different shard lengths through the same
+// code in one process; the second call's result is judged like the first.
+func VerifHarness_C12_parallel_twice() {
+	pairs := [][2]int{{32, 34}, {34, 32}, {16, 48}, {64, 66}, {20, 36}}[rt.Choice("lengths", 5)]
+	g := 2 + rt.Choice("goroutines", 3)
+	parallelCase(pairs[0], g, false)
+	parallelCase(pairs[1], g, false)
+}
+
+// The same for the coder: two reconstructions on one coder value with the same
+// missing data shard but different parity shards available.
+func VerifHarness_C07_reconstruct_twice() {
+	vand := rt.Bool("vandermonde")
+	var c Coder
+	var err error
+	if vand {
+		c, err = NewCoderPAR2Vandermonde(2, 3, 1)
+	} else {
+		c, err = NewCoderCauchy(2, 3, 1)
+	}
+	rt.Assert(err == nil, "coder built")
+	data := shards("d", 2, 2)
+	parity := c.GenerateParity(data)
+	lost := rt.Choice("lost", 2)
+	for round := 0; round < 2; round++ {
+		d := [][]byte{data[0], data[1]}
+		d[lost] = nil
+		p := [][]byte{parity[0], parity[1], parity[2]}
+		// first round: every parity shard present; second round: the lowest one is gone too
+		if round == 1 {
+			p[rt.Choice("parityLost", 3)] = nil
+		}
+		rerr := c.ReconstructData(d, p)
+		if rerr == nil {
+			sameShards([][]byte{d[lost]}, [][]byte{data[lost]}, "nil error: the reconstructed shard equals the original (second call on the same coder included)")
+		} else {
+			rt.Assert(vand, "Cauchy coder never fails within capability")
+		}
+	}
 }
 
 func VerifHarness_C12_parallel_out() {
